@@ -495,6 +495,58 @@ fn sections(p: &Params) -> Program {
             advancer(3, 1),
         ]
         }
+        // 15. (C16, finding #12) a deferred function that runs during thread 0's own collection
+        //     takes a guard of thread 0's participant and keeps it (parks it): when the unpin
+        //     that ran the collection is over, that guard is alive, so the thread is pinned
+        14 => {
+            nhandles = 2;
+            vec![
+                ebody(&ew, move |c, ew| {
+                    let h = &ew.handles[0].get().0;
+                    let hp = h as *const LocalHandle as usize;
+                    let ewp = ew as *const EWorld as usize;
+                    let g = c.pin(h);
+                    let id = mon().closure_deferred(c.t);
+                    unsafe {
+                        cv::ebr::defer(&g.g, move || {
+                            ran(id);
+                            // only on the thread that owns the participant: a handle is not Send
+                            if try_mon().is_none() || sched::tid() != 0 {
+                                return;
+                            }
+                            let h = &*(hp as *const LocalHandle);
+                            let ew = &*(ewp as *const EWorld);
+                            ew.parked.put(SendGuard(h.pin()));
+                        });
+                    }
+                    c.flush(&g);
+                    c.unpin(g);
+                    let mut rounds = 0;
+                    while !ew.parked.is_some() && rounds < 8 {
+                        c.round(h);
+                        rounds += 1;
+                    }
+                    if ew.parked.is_some() {
+                        mon().cover("guard-kept-by-deferred-function");
+                        let st = cv::ebr::local_state(h);
+                        if !st.pinned || st.guard_count != 1 {
+                            mon().violate(
+                                "C16",
+                                "kept-guard-not-counted",
+                                format!("a guard taken by a deferred function during the thread's own collection is alive, but the participant is pinned={} with guard_count={}", st.pinned, st.guard_count),
+                            );
+                        } else {
+                            drop(ew.parked.take());
+                            let st = cv::ebr::local_state(h);
+                            if st.pinned || st.guard_count != 0 {
+                                mon().violate("C16", "guard-model", format!("after dropping the kept guard: pinned={} guard_count={}", st.pinned, st.guard_count));
+                            }
+                        }
+                    }
+                }),
+                advancer(1, 3),
+            ]
+        }
         // 12. (C14) a guard that has outlived its handle is reactivated while another participant
         //     advances: the participant must stay registered (and hold the epoch back) for as
         //     long as the guard lives
@@ -543,7 +595,8 @@ fn sections(p: &Params) -> Program {
                     unsafe {
                         cv::ebr::defer(&g.g, move || {
                             ran(id);
-                            if try_mon().is_none() || sched::tid() == sched::NONE {
+                            // only on the thread that owns the participant: a handle is not Send
+                            if try_mon().is_none() || sched::tid() != 0 {
                                 return;
                             }
                             let h = &*(hp as *const LocalHandle);
